@@ -191,3 +191,8 @@ Global Instance abs_Z : PyAbs Z := Z.abs.
 Global Instance abs_Q : PyAbs Q := Qabs.
 (* range(a, b) *)
 Definition zrange (a b : Z) : list Z := map (fun k => (a + Z.of_nat k)%Z) (seq 0 (Z.to_nat (b - a))).
+
+(* enumerate(l) *)
+Fixpoint enum_from {A} (k : Z) (l : list A) : list (Z * A) :=
+  match l with [] => [] | a :: r => (k, a) :: enum_from (k + 1) r end.
+Definition enumerate_ {A} (l : list A) : list (Z * A) := enum_from 0 l.
